@@ -34,6 +34,14 @@
 //	      the alphabet, whatever the call returned; the OpenFile flag alphabet
 //	      includes access mode O_RDONLY with O_TRUNC / O_CREATE /
 //	      O_CREATE|O_EXCL / O_APPEND on every path.
+//	(iv)  stacked and wrapped bases (stack.go): "its base" is any file system of
+//	      the library. (i) again with the FailFS under test built on a lower
+//	      FailFS carrying ReadOnlyFunc (set before the upper one is built, after
+//	      it is built, in mid-history), on a RoFS, a BasePathFS, a Sub view - the
+//	      twin being that wrapped base driven directly; (ii) and (ii') again with
+//	      the failure function of the plan on the LOWER FailFS (installed before /
+//	      after the upper one is built, the upper one having none), and on the
+//	      upper FailFS over a lower one that refuses changes.
 package main
 
 import (
@@ -59,13 +67,13 @@ import (
 func factory(name string) bfs.System {
 	verifrt.SetMode(verifrt.ModeSeq)
 
-	parts := strings.SplitN(name, "/", 2)
-	if len(parts) != 2 {
+	base, plan, stack, ok := splitSysName(name)
+	if !ok {
 		fmt.Fprintln(os.Stderr, "c12: bad system name", name)
 		os.Exit(2)
 	}
 
-	return newSys(parts[0], parts[1])
+	return newSys(base, plan, stack)
 }
 
 func die(format string, a ...any) {
@@ -98,7 +106,7 @@ func main() {
 	tier := flag.String("tier", "quick", "quick|thorough")
 	replay := flag.String("replay", "", "replay file to re-execute")
 	bases := flag.String("bases", "MemFS,OrefaFS", "base file systems")
-	only := flag.String("only", "", "run only these parts (comma list of: fault,handle,none,okfunc,readonly,conc)")
+	only := flag.String("only", "", "run only these parts (comma list of: fault,handle,none,okfunc,readonly,stack,conc)")
 	depthF := flag.Int("depth", 0, "override the history bound of all parts")
 
 	var w1, w2 string
@@ -139,13 +147,44 @@ func main() {
 	// read, and a handle that is already closed
 	handlePres := []string{"Read(4)", `Write("XY")`, "Seek(1,1)", "ReadDir(1)", "Close()"}
 
+	// Stacked and wrapped bases (stack.go). Fault enumeration: histories of up to
+	// `hist` calls with every single-fault plan, the function of the plan on the
+	// lower FailFS (installed before / after the upper one is built) and on the
+	// upper FailFS over a lower one carrying ReadOnlyFunc (set before / after);
+	// handle programmes through the stacks marked `handle`. Engine A: the twin
+	// stacks join the list of systems below, with the depths set here (bases
+	// that cannot change: stackDepth; BasePathFS and Sub view: wideDepth;
+	// function of the lower FailFS replaced in mid-history: midDepth, 0 = not run).
+	type stackRun struct {
+		stack  string
+		hist   int
+		handle bool
+		pres   []string
+	}
+
+	stackRuns := []stackRun{{stPlanPre, 1, false, nil}, {stPlanPost, 1, true, nil}, {stRoPre, 1, false, nil}, {stRoPost, 1, false, nil}}
+	stackDepth, wideDepth, midDepth := 2, 1, 0
+
 	if *tier == "thorough" {
 		bfsDepth, faultHist = 3, 3
+		stackRuns = []stackRun{
+			{stPlanPre, 2, true, handlePres}, {stPlanPost, 2, true, handlePres}, {stRoPre, 2, false, nil}, {stRoPost, 2, true, handlePres},
+		}
+		stackDepth, wideDepth, midDepth = 3, 2, 3
 		handlePres = []string{"*"}
 	}
 
 	if *depthF > 0 {
 		bfsDepth, faultHist = *depthF, *depthF
+		stackDepth, wideDepth = *depthF, *depthF
+
+		if midDepth > 0 {
+			midDepth = *depthF
+		}
+
+		for i := range stackRuns {
+			stackRuns[i].hist = *depthF
+		}
 	}
 
 	budget := 0.0
@@ -193,7 +232,7 @@ func main() {
 
 	if part("fault") || part("handle") {
 		for _, b := range baseNames {
-			fe := newFaultEngine(b)
+			fe := newFaultEngine(b, "")
 			engines = append(engines, fe)
 
 			if part("fault") {
@@ -218,21 +257,94 @@ func main() {
 		}
 	}
 
-	// ---- (i) and (iii): engine A ----------------------------------------------
-	var (
-		stats   []bfs.Stats
-		sysList []string
-	)
+	// ---- (iv) fault enumeration through stacked FailFS ------------------------
+	var stackEngines []*faultEngine
 
-	for _, b := range baseNames {
-		for _, p := range []string{"none", "okfunc", "readonly"} {
-			if part(p) {
-				sysList = append(sysList, b+"/"+p)
+	if part("stack") && (part("fault") || part("handle")) && harnessErr == "" {
+		for _, sr := range stackRuns {
+			for _, b := range baseNames {
+				fe := newFaultEngine(b, sr.stack)
+				stackEngines = append(stackEngines, fe)
+
+				if part("fault") {
+					for l := 0; l < sr.hist; l++ {
+						fe.runLevel(at(0.48), report)
+					}
+
+					fmt.Printf("C12 fault %s: letters=%d histories=%d (length<=%d complete) fault-free runs=%d single-fault runs=%d states=%d %s\n",
+						fe.label(), fe.probe.NumOps(), fe.Histories, fe.HistLen, fe.FaultFree, fe.FaultRuns, fe.States, fe.Partial)
+				}
+
+				if part("handle") && sr.handle {
+					fe.runHandle(sr.pres, at(0.52), report)
+
+					fmt.Printf("C12 handle programmes %s: opening prefixes=%d (pre in %v) fault-free runs open;[pre];F=%d single-fault runs open;[pre];F fails;G;Close=%d twin followed to the end in %d %s\n",
+						fe.label(), fe.HPrefixes, sr.pres, fe.HProgs, fe.HRuns, fe.HFollowed, fe.HPartial)
+				}
+
+				if fe.HarnessErr != "" {
+					harnessErr = "fault enumeration on " + fe.label() + ": " + fe.HarnessErr
+				}
 			}
 		}
 	}
 
-	for i, sn := range sysList {
+	// ---- (i) and (iii): engine A ----------------------------------------------
+	type bfsSystem struct {
+		name  string
+		depth int
+	}
+
+	var (
+		stats   []bfs.Stats
+		sysList []bfsSystem
+		heavy   []bfsSystem
+
+		stackSystems, stackStates, stackTrans int
+	)
+
+	depthDone := bfsDepth
+	bfsStacks := map[string]bool{}
+
+	// Systems whose base cannot change (read-only plan, lower FailFS carrying
+	// ReadOnlyFunc, RoFS) have few states: they go first and leave what they do
+	// not use of their share of the budget to the others.
+	for _, b := range baseNames {
+		if part("readonly") {
+			sysList = append(sysList, bfsSystem{sysName(b, "readonly", ""), bfsDepth})
+		}
+
+		for _, p := range []string{"none", "okfunc"} {
+			if part(p) {
+				heavy = append(heavy, bfsSystem{sysName(b, p, ""), bfsDepth})
+			}
+
+			if !part("stack") || !part(p) {
+				continue
+			}
+
+			for _, st := range []string{stRoPre, stRoPost, stRoFS} {
+				sysList = append(sysList, bfsSystem{sysName(b, p, st), stackDepth})
+			}
+
+			if p == "okfunc" && *tier != "thorough" {
+				continue // bases that can change, mid-history arming: plan none only in the quick tier
+			}
+
+			if b == "MemFS" {
+				// OrefaFS: "/" cannot be the base path of a BasePathFS (Stat("/") fails), and it has no Sub
+				heavy = append(heavy, bfsSystem{sysName(b, p, stBasePath), wideDepth}, bfsSystem{sysName(b, p, stSubView), wideDepth})
+			}
+
+			if midDepth > 0 && p == "none" {
+				heavy = append(heavy, bfsSystem{sysName(b, p, stRoMid), midDepth})
+			}
+		}
+	}
+
+	sysList = append(sysList, heavy...)
+
+	for i, bs := range sysList {
 		if harnessErr != "" {
 			break
 		}
@@ -240,7 +352,7 @@ func main() {
 		var deadline time.Time
 
 		if budget > 0 {
-			end := at(0.70)
+			end := at(0.72)
 			left := time.Until(end)
 
 			if left < 0 {
@@ -250,14 +362,15 @@ func main() {
 			deadline = time.Now().Add(left / time.Duration(len(sysList)-i))
 		}
 
+		sn := bs.name
 		probe := factory(sn)
-		plan := strings.SplitN(sn, "/", 2)[1]
+		base, plan, stack, _ := splitSysName(sn)
 
 		cfg := bfs.Config{
-			System: sn, MaxDepth: bfsDepth, Deadline: deadline,
-			Report: func(system string, hist []string, op string, v bfs.Viol) {
+			System: sn, MaxDepth: bs.depth, Deadline: deadline,
+			Report: func(_ string, hist []string, op string, v bfs.Viol) {
 				rep.Report(kf.Sig(v.Sig), map[string]any{
-					"system": strings.SplitN(system, "/", 2)[0], "plan": plan,
+					"system": base, "plan": plan, "stack": stack,
 					"history": append(append([]string{}, hist...), op), "detail": v.Detail,
 				})
 			},
@@ -270,8 +383,19 @@ func main() {
 			harnessErr = sn + ": " + st.HarnessErr
 		}
 
-		fmt.Printf("C12 bfs %s: letters=%d states=%d transitions=%d depth_completed=%d exhaustive=%v\n",
-			sn, probe.NumOps(), st.States, st.Transitions, st.DepthDone, st.Exhaustive)
+		fmt.Printf("C12 bfs %s: letters=%d states=%d transitions=%d depth_completed=%d/%d exhaustive=%v\n",
+			sn, probe.NumOps(), st.States, st.Transitions, st.DepthDone, bs.depth, st.Exhaustive)
+
+		if stack == "" {
+			if st.DepthDone < depthDone {
+				depthDone = st.DepthDone
+			}
+		} else {
+			stackSystems++
+			stackStates += st.States
+			stackTrans += st.Transitions
+			bfsStacks[stack+" (plan "+plan+"): histories of length <= "+strconv.Itoa(bs.depth)] = true
+		}
 	}
 
 	// ---- (ii) deeper level with what is left of the budget --------------------
@@ -331,17 +455,27 @@ func main() {
 
 	faultExh := true
 
-	for _, fe := range engines {
-		for k, n := range fe.Covered {
-			covered[k] += n
+	var stackRunsN, stackHist int
+
+	for i, fe := range append(append([]*faultEngine{}, engines...), stackEngines...) {
+		if i >= len(engines) {
+			// stacked engines add runs and classes; the coverage assertion over the FnVFS
+			// enumeration is made on the single FailFS (a lower FailFS is never asked
+			// for the ids of the composites re-implemented by the upper one)
+			stackRunsN += fe.FaultFree + fe.FaultRuns + fe.HProgs
+			stackHist += fe.Histories
+		} else {
+			for k, n := range fe.Covered {
+				covered[k] += n
+			}
+
+			for k := range fe.Invoked {
+				invoked[k] = true
+			}
 		}
 
 		for k, n := range fe.Injected {
 			injected[k] += n
-		}
-
-		for k := range fe.Invoked {
-			invoked[k] = true
 		}
 
 		for k, n := range fe.Classes {
@@ -466,10 +600,51 @@ func main() {
 		}
 	}
 
-	depthDone := bfsDepth
+	var stackList, bfsStackNames []string
+
+	usedStacks := map[string]bool{}
+
+	for _, fe := range stackEngines {
+		usedStacks[fe.Stack] = true
+	}
+
 	for _, st := range stats {
-		if st.DepthDone < depthDone {
-			depthDone = st.DepthDone
+		if _, _, stack, _ := splitSysName(st.System); stack != "" {
+			usedStacks[stack] = true
+		}
+	}
+
+	for st := range usedStacks {
+		stackList = append(stackList, st+": "+stackDesc[st])
+	}
+
+	for k := range bfsStacks {
+		bfsStackNames = append(bfsStackNames, k)
+	}
+
+	sort.Strings(stackList)
+	sort.Strings(bfsStackNames)
+
+	stackFaultBound := "none"
+
+	if len(stackEngines) > 0 {
+		var parts []string
+
+		for _, sr := range stackRuns {
+			p := fmt.Sprintf("%s: all single-fault plans of all histories of length <= %d", sr.stack, sr.hist)
+			if sr.handle {
+				p += fmt.Sprintf(" and the handle programmes with pre in {none%s}", strings.Join(append([]string{""}, sr.pres...), ", "))
+			}
+
+			parts = append(parts, p)
+		}
+
+		stackFaultBound = strings.Join(parts, "; ")
+
+		for _, fe := range stackEngines {
+			if !fe.Exhaustive {
+				stackFaultBound += " (" + fe.label() + " cut by the budget: " + fe.Partial + " " + fe.HPartial + ")"
+			}
 		}
 	}
 
@@ -512,13 +687,26 @@ func main() {
 				"twin_followed_to_the_end":     hfollowed,
 				"openflag_alphabet_every_path": flagStrings(),
 			},
-			"fault_classes":                 classNames,
-			"plans_injected_per_fn":         injNames,
-			"fn_covered":                    coveredNames,
-			"fn_not_covered":                append(append([]string{}, uncovered...), holes...),
-			"fn_unreachable_listed":         unreachable,
-			"methods_without_fn_id":         noID,
-			"fault_engines":                 engines,
+			"fault_classes":         classNames,
+			"plans_injected_per_fn": injNames,
+			"fn_covered":            coveredNames,
+			"fn_not_covered":        append(append([]string{}, uncovered...), holes...),
+			"fn_unreachable_listed": unreachable,
+			"methods_without_fn_id": noID,
+			"fault_engines":         engines,
+			"stacked_bases": map[string]any{
+				"lesson": "a wrapper has to be enumerated on every wrapper of the library as its base, with the configuration of that base (failure function of a lower FailFS) " +
+					"set before the upper layer is built, after it is built and in mid-history: code that looks through a base of a known type, or copies its configuration at construction time or at first use, is wrong for some of these orders only",
+				"stacks":                    stackList,
+				"fault_engines":             stackEngines,
+				"fault_runs":                stackRunsN,
+				"fault_histories":           stackHist,
+				"bfs_systems":               stackSystems,
+				"bfs_states":                stackStates,
+				"bfs_transitions":           stackTrans,
+				"bfs_history_bound":         bfsStackNames,
+				"composite_ids_of_the_base": "plan stacks: FailFS re-implements ReadDir, ReadFile and MkdirTemp over itself, so a FailFS built on a FailFS never asks the lower one for FnReadDir / FnReadFile / FnMkdirTemp; the own-id oracle reports it (kind no-consultation, stack ff-plan-*)",
+			},
 			"fault_outcomes_distinct":       len(foutcomes),
 			"states":                        states,
 			"transitions":                   trans,
@@ -528,8 +716,10 @@ func main() {
 			"exhaustive":                    bfsExh && faultExh && harnessErr == "",
 			"bound": fmt.Sprintf("(i)/(iii) all histories of length <= %d (completed %d) per system, OpenFile with %d flag sets (4 of them O_RDONLY plus TRUNC / CREATE / CREATE|EXCL / APPEND) on each of %d paths; "+
 				"(ii) all single-fault plans of all histories of length <= %d (completed %d), twin in lock-step before and after the failure; "+
-				"(ii') all handle programmes open;[pre];F fails;G;Close with pre in {none, %s} (\"*\" = every File call), every File method F (every consultation, every error) and every File method G (%d letters)",
-				bfsDepth, depthDone, len(flagSets), len(nsPaths), faultHist, histDone, strings.Join(handlePres, ", "), len(fileCalls())),
+				"(ii') all handle programmes open;[pre];F fails;G;Close with pre in {none, %s} (\"*\" = every File call), every File method F (every consultation, every error) and every File method G (%d letters); "+
+				"(iv) stacked and wrapped bases, same alphabet, twin = the wrapped base driven directly (twin stacks) or the bare base (plan stacks): engine A %s; fault enumeration %s",
+				bfsDepth, depthDone, len(flagSets), len(nsPaths), faultHist, histDone, strings.Join(handlePres, ", "), len(fileCalls()),
+				strings.Join(bfsStackNames, ", "), stackFaultBound),
 			"known_findings_matched": append([]string{}, rep.KnownMatched()...),
 		},
 		Assumptions: []string{
@@ -547,6 +737,10 @@ func main() {
 			"handles or file systems returned together with an error are not pooled",
 			"small scope: 9 paths, <= 2 handle slots, 1 Sub slot (MemFS only: OrefaFS has no Sub), temp names supplied by the harness (0,0,1,1,... forcing one collision per later temp call)",
 			"sequential execution (verifrt.ModeSeq): a self-deadlock is decided, not timed out",
+			"stacked bases: the failure function carried by a lower FailFS of a twin stack is stateless (failfs.ReadOnlyFunc / OkFunc), so both sides answer alike whatever the number of consultations; " +
+				"single-fault plans on a lower FailFS are judged by the oracles of the single FailFS on the stack as a whole (plan stacks), not against a second counting function; " +
+				"in-history replacement of the lower function (ff-ro-mid) is part of the thorough tier only (it needs histories of three calls to show anything the ff-ro-post stack does not); " +
+				"BasePathFS and Sub view are rooted at \"/\" so that the path alphabet keeps its meaning, hence on MemFS only (\"/\" of OrefaFS cannot be a base path, OrefaFS has no Sub); the read-only plan is not repeated on stacks",
 		},
 		Violations: rep.NewCount(),
 	}
@@ -555,8 +749,8 @@ func main() {
 		die("evidence: %v", err)
 	}
 
-	fmt.Printf("c12: tier=%s bfs systems=%d states=%d transitions=%d (depth %d/%d) | fault: histories=%d runs=%d single-fault=%d (of which handle programmes=%d, twin followed=%d) classes=%d length %d/%d | FnVFS covered %d/%d (+%d listed unreachable) | new signatures=%d exhaustive=%v wall=%.1fs\n",
-		*tier, len(stats), states, trans, depthDone, bfsDepth, histories, runs, faultRuns, hruns, hfollowed, len(classes), histDone, faultHist,
+	fmt.Printf("c12: tier=%s bfs systems=%d (of which on stacked bases=%d) states=%d transitions=%d (depth %d/%d) | fault: histories=%d runs=%d (of which through stacked FailFS=%d) single-fault=%d (of which handle programmes=%d, twin followed=%d) classes=%d length %d/%d | FnVFS covered %d/%d (+%d listed unreachable) | new signatures=%d exhaustive=%v wall=%.1fs\n",
+		*tier, len(stats), stackSystems, states, trans, depthDone, bfsDepth, histories, runs, stackRunsN, faultRuns, hruns, hfollowed, len(classes), histDone, faultHist,
 		len(coveredNames), len(allFn()), len(unreachableFn), rep.NewCount(), bfsExh && faultExh && harnessErr == "", ev.Elapsed())
 
 	os.Exit(code)
@@ -574,6 +768,7 @@ func doReplay(path string) int {
 		Replay struct {
 			System  string   `json:"system"`
 			Plan    string   `json:"plan"`
+			Stack   string   `json:"stack"`
 			History []string `json:"history"`
 			Fault   *struct {
 				K   int    `json:"k"`
@@ -591,7 +786,7 @@ func doReplay(path string) int {
 		die("replay: %s holds no history", path)
 	}
 
-	s := newSys(r.System, r.Plan)
+	s := newSys(r.System, r.Plan, r.Stack)
 
 	if r.Plan == "fault" {
 		if r.Fault == nil {
